@@ -15,6 +15,9 @@ extstrip = None
 class LinkEntry(GopherEntry):
     def __init__(self, selector: str, config: configparser.ConfigParser):
         super().__init__(selector, config)
+        # Unlike a real entry, a link block has no number until a Numb= line
+        # sets one; merging it must not reset the number of the entry.
+        self.num = None
         self.needsmerge = False
         self.needsabspath = False
 
